@@ -319,6 +319,21 @@ func ExecC12(f []string) string {
 		vs := RealList(DecList(sys, PName, f[2]))
 		resolve.SortVersions(vs)
 		return "ok " + EncRealList(sys, PName, vs)
+	case len(f) == 3 && f[0] == "classify":
+		// the harness's copies of the decidable hypotheses of the partial theorems
+		// (finding classifiers); the driver answers with the Lean predicates
+		sys, ok := SysByName[f[1]]
+		if !ok {
+			return "bad-op"
+		}
+		vs := DecList(sys, PName, f[2])
+		b := func(x bool) int {
+			if x {
+				return 1
+			}
+			return 0
+		}
+		return fmt.Sprintf("ok lawful=%d tagsexact=%d", b(Lawful(Semver(sys), Strings(vs))), b(TagsExact(vs)))
 	}
 	return "bad-op"
 }
